@@ -172,6 +172,11 @@ type ReaderSpec struct {
 	// NilHandlers: the application restored the default handlers with SetPingHandler(nil),
 	// SetPongHandler(nil), SetCloseHandler(nil) (documented; same behaviour as never setting them)
 	NilHandlers bool `json:"nil_handlers,omitempty"`
+	// PreClose: the application has already sent its own close frame (WriteControl) before it reads
+	// on: the replies the reader would write (pongs, close echoes) are refused with ErrCloseSent, which
+	// is not a read error - the peer's messages still arrive.  Spec only (Cmp off): the model's
+	// write side starts open.
+	PreClose bool `json:"pre_close,omitempty"`
 }
 
 type hErr struct{ id int }
@@ -372,6 +377,10 @@ func readerExec(s core.Spec) core.Exec {
 	if sp.StaleWDL {
 		c.SetWriteDeadline(time.Unix(1000, 0))
 	}
+	if sp.PreClose && !sp.ViaDial && !sp.ViaUpgrade {
+		c.WriteControl(websocket.CloseMessage, websocket.FormatCloseMessage(1000, ""), time.Now().Add(time.Second))
+		skipWritten = len(sc.Written())
+	}
 	if sp.NilHandlers && !sp.Custom {
 		c.SetPingHandler(nil)
 		c.SetPongHandler(nil)
@@ -427,6 +436,9 @@ func readerExec(s core.Spec) core.Exec {
 	tags := []string{}
 	if sp.NilHandlers && !sp.Custom {
 		tags = append(tags, "handlers:reset-to-nil")
+	}
+	if sp.PreClose {
+		tags = append(tags, "write-side:close-already-sent")
 	}
 	func() {
 		defer func() {
